@@ -6,9 +6,11 @@ import (
 	"fmt"
 	"math/rand"
 	"os"
+	"runtime"
 	"sort"
 	"strconv"
 	"sync"
+	"sync/atomic"
 
 	tcpip "github.com/brewlin/net-protocol/protocol"
 	"github.com/brewlin/net-protocol/protocol/ports"
@@ -194,6 +196,85 @@ func race(out string, seed int64, hists, G, K int) {
 	tr.Close()
 }
 
+// burst: the same kind of history, but every goroutine issues ONE operation and all of them start together (calls are
+// logged first, then a spin barrier releases the goroutines at once, returns are logged when all are back): the check-then-act
+// window of a reservation is hit by construction instead of by luck.  Most operations are reservations of the same port.
+func burst(out string, seed int64, hists, G int) {
+	tr := vh.NewTrace(out)
+	addrs := []string{"", "a", "b"}
+	netsets := [][]string{{"n1"}, {"n2"}, {"n1", "n2"}}
+	r := rand.New(rand.NewSource(seed*7919 + 17))
+	type call struct {
+		op string
+		nn []tcpip.NetworkProtocolNumber
+		a  string
+		p  int
+		ok bool
+	}
+	for h := 0; h < hists; h++ {
+		pm := ports.NewPortManager()
+		tr.Log(map[string]interface{}{"ev": "reset", "hist": h, "burst": true})
+		// a holder that may already be there (a release racing the reservations is part of the mix)
+		pre := r.Intn(3) == 0
+		if pre {
+			tr.Log(map[string]interface{}{"ev": "call", "g": 7, "op": "reserve", "nets": []string{"n1"}, "t": "t1", "a": "a", "p": 1})
+			_, err := pm.ReservePort([]tcpip.NetworkProtocolNumber{netNum["n1"]}, 6, tcpip.Address("a"), 1)
+			tr.Log(map[string]interface{}{"ev": "ret", "g": 7, "ok": err == nil})
+		}
+		calls := make([]*call, G)
+		for g := 0; g < G; g++ {
+			ns := netsets[r.Intn(len(netsets))]
+			if h%2 == 0 {
+				ns = netsets[2]
+			}
+			c := &call{op: []string{"reserve", "reserve", "reserve", "reserve", "release", "query"}[r.Intn(6)], a: addrs[r.Intn(len(addrs))], p: 1}
+			if h%4 == 0 {
+				c.op, c.a = "reserve", addrs[0]
+			}
+			if !pre && c.op == "release" {
+				c.op = "reserve"
+			}
+			if c.op == "release" {
+				c.a, ns = "a", netsets[0]
+			}
+			for _, s := range ns {
+				c.nn = append(c.nn, netNum[s])
+			}
+			calls[g] = c
+			tr.Log(map[string]interface{}{"ev": "call", "g": g, "op": c.op, "nets": ns, "t": "t1", "a": c.a, "p": c.p})
+		}
+		var ready int32
+		var wg sync.WaitGroup
+		for g := 0; g < G; g++ {
+			wg.Add(1)
+			go func(c *call) {
+				defer wg.Done()
+				atomic.AddInt32(&ready, 1)
+				for spins := 0; atomic.LoadInt32(&ready) < int32(G); spins++ {
+					if spins > 2000 {
+						runtime.Gosched()
+					}
+				}
+				c.ok = true
+				switch c.op {
+				case "reserve":
+					_, err := pm.ReservePort(c.nn, 6, tcpip.Address(c.a), uint16(c.p))
+					c.ok = err == nil
+				case "release":
+					pm.ReleasePort(c.nn, 6, tcpip.Address(c.a), uint16(c.p))
+				case "query":
+					c.ok = pm.IsPortAvailable(c.nn, 6, tcpip.Address(c.a), uint16(c.p))
+				}
+			}(calls[g])
+		}
+		wg.Wait()
+		for g := 0; g < G; g++ {
+			tr.Log(map[string]interface{}{"ev": "ret", "g": g, "ok": calls[g].ok})
+		}
+	}
+	tr.Close()
+}
+
 func atoi(s string) int {
 	n, err := strconv.Atoi(s)
 	if err != nil {
@@ -214,6 +295,8 @@ func main() {
 		eph(os.Args[2], os.Args[3])
 	case "race":
 		race(os.Args[2], int64(atoi(os.Args[3])), atoi(os.Args[4]), atoi(os.Args[5]), atoi(os.Args[6]))
+	case "burst":
+		burst(os.Args[2], int64(atoi(os.Args[3])), atoi(os.Args[4]), atoi(os.Args[5]))
 	default:
 		vh.Fatal("unknown mode")
 	}
